@@ -287,7 +287,10 @@ func RecoverFile(path string, o *opt.Options) (db *DB, err error) {
 }
 
 func recoverTable(s *session, o *opt.Options) error {
-	o = dupOptions(o)
+	// Use the session's options: tables hold internal keys, so they must be
+	// read and rebuilt with the internal comparer and filter, not with the
+	// user-supplied ones.
+	o = dupOptions(s.o.Options)
 	// Mask StrictReader, lets StrictRecovery doing its job.
 	o.Strict &= ^opt.StrictReader
 
